@@ -94,7 +94,7 @@ Print Assumptions C10_dnstxt_clean.
 (** configuration supplied text: cb_nomail, for EVERY text the control file "nomail" can hold (any octets but NUL,
     any length): no crash, a valid reply, with the file's own code when it starts with "[45]dd [45].d.d " and a
     ten octet code of the server otherwise, carrying the text (control octets replaced) completely and in order.
-    (The unpatched cb_nomail handed the whole text to net_writen as s[0]: 510 octets or more behind a valid code
+    (The unpatched cb_nomail handed the whole text to net_writen as s[0]: a text of 511 octets or more that starts with a code
     overflowed msg[512]; a CR in the file went into the reply; fixes/C10-nomail-code-and-control-chars.diff.) *)
 Theorem C10_nomail : forall raw, ~ In 0%N raw ->
   exists ls code payload, cb_nomail raw = Ok (Some ls) /\ length code = 3 /\ Forall digit_P code
@@ -103,6 +103,14 @@ Theorem C10_nomail : forall raw, ~ In 0%N raw ->
         \/ exists pre, length pre = 10 /\ code ++ [SP] ++ payload = pre ++ nomail_sanitise raw).
 Proof. exact cb_nomail_valid. Qed.
 Print Assumptions C10_nomail.
+
+(** the code before the two fixes has neither property: a TXT record with CR LF reaches the reply unchanged,
+    and a 511 octet nomail text that starts with a code makes net_writen store behind msg[512] (Crash 7) *)
+Theorem C10_unpatched_refuted :
+  (exists raw v, dnstxt_orig raw = Some v /\ ~ no_crlf v)
+  /\ (exists raw, ~ In 0%N raw /\ no_crlf raw /\ forall lit, cb_nomail_orig lit raw = Crash 7).
+Proof. exact unpatched_refuted. Qed.
+Print Assumptions C10_unpatched_refuted.
 
 (** where the class invariants come from: the conclusions of C14_oracle_ref (addresses), C14_domain (names
     accepted by domainvalid), C11_exp_text_clean (SPF explanation), C05_line_shape (command lines) and
